@@ -299,6 +299,122 @@ def toplevel_default(rep: C.Report) -> None:
         ob.detail += f"{type(e).__name__}: {e}"
 
 
+def missing_template_link(rep: C.Report) -> None:
+    """Ob9: a call of a template that does not exist becomes a link to the template page.  AST fact on the expander: the
+    `else` of the test "the looked-up page exists and has a body" assigns the text `[[:<namespace name>:<name>]]` (an
+    f-string / concatenation with exactly the constant parts '[[:', ':' and ']]' around the namespace name and the call's
+    name) to the variable that is appended to the output; if the shape is not found, four documents are replayed."""
+    import ast
+
+    from vf import astpaths as AP
+
+    ob = rep.add(C.Ob("Ob9 a call of a missing template becomes [[:Template:name]]", "AST fact + replay", ["core.py:Wtp.expand.expand_recurse (template branch)"], "structure of the missing-page branch; replay: 4 documents"))
+    try:
+        tree = ast.parse(open(os.path.join(C.SRC, "core.py")).read())
+        fns = [f for q, f in AP.functions(tree) if q[-1] == "expand_recurse"]
+        ok = False
+        for fn in fns:
+            for node in ast.walk(fn):
+                if not (isinstance(node, ast.If) and "template_page" in ast.unparse(node.test) and "is not None" in ast.unparse(node.test) and node.orelse):
+                    continue
+                for st in node.orelse:
+                    if isinstance(st, ast.Assign) and isinstance(st.value, ast.JoinedStr):
+                        consts = [v.value for v in st.value.values if isinstance(v, ast.Constant)]
+                        exprs = [ast.unparse(v.value) for v in st.value.values if isinstance(v, ast.FormattedValue)]
+                        if consts == ["[[:", ":", "]]"] and len(exprs) == 2 and "name" in exprs[0] and exprs[1] == "name":
+                            ok = True
+        ob.conditions = ob.queries = ob.paths = 1
+        if ok:
+            ob.verdict = C.DISCHARGED
+            ob.confirmed_conditions = 1
+            return
+        from wikitextprocessor import Wtp
+
+        w = Wtp(quiet=True, quiet_output=True)
+        w.add_page("Template:a", 10, "A({{{1|}}})")
+        for doc, want in (("{{nosuch}}", "[[:Template:nosuch]]"), ("{{nosuch|x|b=c}}", "[[:Template:nosuch]]"), ("x{{a|{{no such}}}}y", "xA([[:Template:no such]])y"), ("{{Nosuch x}}{{a}}", "[[:Template:Nosuch x]]A()")):
+            w.start_page("T")
+            got = w.expand(doc)
+            if got != want:
+                v = rep.violation(f"expand({doc!r}) with no page 'Template:nosuch'", f"result {got!r}, expected {want!r} (a missing template becomes a link to the template page)", {"doc": doc})
+                ob.verdict = C.VIOLATED if v.known is None else C.KNOWN
+                ob.confirmed_conditions = 1
+                return
+        ob.detail = "the missing-page branch does not have the expected shape, but the four replay documents expand to the link -> inconclusive"
+    except Exception as e:  # noqa: BLE001
+        ob.detail += f"{type(e).__name__}: {e}"
+
+
+def frame_discipline(rep: C.Report) -> None:
+    """Ob10: arguments are expanded in the CALLER's frame, the body in the callee's.  AST facts on the template branch of
+    expand_recurse: (a) every expand_recurse(...) inside the loop over the call's arguments passes the enclosing function's own
+    frame parameter as frame; (b) the body is first substituted with expand_args(<body>, <the argument map built by that
+    loop>) and (c) then expanded with a frame whose argument map is that same map.  Otherwise nested calls are replayed."""
+    import ast
+
+    from vf import astpaths as AP
+
+    ob = rep.add(C.Ob("Ob10 template arguments are expanded in the caller's frame, the body in the callee's", "AST facts + replay", ["core.py:Wtp.expand.expand_recurse (template branch)"], "all expand_recurse / expand_args call sites of the template branch; replay: 4 nested documents"))
+    try:
+        tree = ast.parse(open(os.path.join(C.SRC, "core.py")).read())
+        fns = [f for q, f in AP.functions(tree) if q[-1] == "expand_recurse"]
+        if len(fns) != 1:
+            ob.verdict, ob.detail = C.NOT_ENCODABLE, "expand_recurse not found"
+            return
+        fn = fns[0]
+        frame_param = fn.args.args[1].arg if len(fn.args.args) > 1 else None
+        problems = []
+        loops = [n for n in ast.walk(fn) if isinstance(n, ast.For) and "args[1:]" in ast.unparse(n.iter)]
+        arg_loops = [lp for lp in loops if any(isinstance(c, ast.Call) and isinstance(c.func, ast.Name) and c.func.id == "expand_recurse" for c in ast.walk(lp))]
+        if not arg_loops:
+            ob.verdict, ob.detail = C.NOT_ENCODABLE, "argument loop not found"
+            return
+        n_calls = 0
+        maps = set()
+        for lp in arg_loops:
+            for c in ast.walk(lp):
+                if isinstance(c, ast.Call) and isinstance(c.func, ast.Name) and c.func.id == "expand_recurse":
+                    n_calls += 1
+                    if not (len(c.args) >= 2 and isinstance(c.args[1], ast.Name) and c.args[1].id == frame_param):
+                        problems.append(f"argument expansion at core.py:{c.lineno} uses frame {ast.unparse(c.args[1]) if len(c.args) > 1 else '?'}")
+            for st in ast.walk(lp):
+                if isinstance(st, ast.Assign) and isinstance(st.targets[0], ast.Subscript) and isinstance(st.targets[0].value, ast.Name):
+                    maps.add(st.targets[0].value.id)
+        # body: expand_args(<...body...>, M) and expand_recurse(<...>, F, ...) with F = (<title>, M)
+        ea = [c for c in ast.walk(fn) if isinstance(c, ast.Call) and isinstance(c.func, ast.Name) and c.func.id == "expand_args" and c.args and "body" in ast.unparse(c.args[0])]
+        if not ea or not all(len(c.args) >= 2 and isinstance(c.args[1], ast.Name) and c.args[1].id in maps for c in ea):
+            problems.append("the body is not substituted with the argument map built from the call")
+        frames = {}
+        for st in ast.walk(fn):
+            if isinstance(st, ast.Assign) and len(st.targets) == 1 and isinstance(st.targets[0], ast.Name) and isinstance(st.value, ast.Tuple) and len(st.value.elts) == 2 and isinstance(st.value.elts[1], ast.Name):
+                frames[st.targets[0].id] = st.value.elts[1].id
+        body_calls = [c for c in ast.walk(fn) if isinstance(c, ast.Call) and isinstance(c.func, ast.Name) and c.func.id == "expand_recurse" and c.args and "body" in ast.unparse(c.args[0])]
+        if not body_calls or not all(len(c.args) >= 2 and isinstance(c.args[1], ast.Name) and frames.get(c.args[1].id) in maps for c in body_calls):
+            problems.append("the body is not expanded in a frame that carries the call's argument map")
+        ob.conditions = ob.queries = ob.paths = n_calls + len(ea) + len(body_calls)
+        ob.samples.append({"frame_parameter": frame_param, "argument_maps": sorted(maps), "argument_expansions": n_calls, "problems": problems})
+        if not problems:
+            ob.verdict = C.DISCHARGED
+            ob.confirmed_conditions = ob.conditions
+            return
+        from wikitextprocessor import Wtp
+
+        w = Wtp(quiet=True, quiet_output=True)
+        w.add_page("Template:t", 10, "[{{{1}}}|{{{k|}}}]")
+        w.add_page("Template:u", 10, "{{t|{{{1}}}|k={{{2|d}}}}}")
+        w.add_page("Template:v", 10, "{{u|{{{x}}}|{{{1}}}}}")
+        for doc, want in (("{{u|A|B}}", "[A|B]"), ("{{u|A}}", "[A|d]"), ("{{v|Q|x=P}}", "[P|Q]"), ("{{t|{{{1}}}}}", "[{{{1}}}|]")):
+            w.start_page("T")
+            got = w.expand(doc)
+            if got != want:
+                v = rep.violation(f"templates t='[{{{{{{1}}}}}}|{{{{{{k|}}}}}}]', u='{{{{t|{{{{{{1}}}}}}|k={{{{{{2|d}}}}}}}}}}', v='{{{{u|{{{{{{x}}}}}}|{{{{{{1}}}}}}}}}}': expand({doc!r})", f"result {got!r}, expected {want!r} ({problems[0]})", {"doc": doc})
+                ob.verdict = C.VIOLATED if v.known is None else C.KNOWN
+                return
+        ob.detail = f"{problems} but the nested replay documents expand correctly -> inconclusive"
+    except Exception as e:  # noqa: BLE001
+        ob.detail += f"{type(e).__name__}: {e}"
+
+
 def template_body_pipeline(rep: C.Report, pid: str = "C04") -> None:
     """Ob6: _template_to_body as a pipeline of regex passes - pass order and early exits (vf/passes.py)."""
     import ast
@@ -506,6 +622,8 @@ def run(rep: C.Report) -> None:
         rep.add(C.Ob("kernels", "E1 CrossHair", [], "", verdict=C.NOT_ENCODABLE, detail=f"{type(e).__name__}: {e}"))
     toplevel_default(rep)
     template_body_pipeline(rep)
+    missing_template_link(rep)
+    frame_discipline(rep)
 
 
 def replay(r: dict) -> int:
